@@ -19,7 +19,12 @@ EntsOf(msg, run) == [i \in DOMAIN run.order |-> msg.ents[run.order[i]]]
 
 (* step-level conformance of the merge loop: not a clause of any property, counted as model drift *)
 StepsAgree(msg, run) ==
-    LET want == MergeTrace(EntsOf(msg, run)) IN
+    LET ents == EntsOf(msg, run)
+        (* the entities as they were on the wire: with a payload-less entity before, between and after them in an "empties" run *)
+        wire == IF "empties" \in DOMAIN run /\ run.empties
+                THEN [i \in 1..(2 * Len(ents) + 1) |-> IF i % 2 = 0 THEN ents[i \div 2] ELSE [k |-> "none"]]
+                ELSE ents
+        want == MergeTrace(wire) IN
     /\ Len(run.steps) = Len(want)
     /\ \A i \in DOMAIN want : SubSeq(run.steps[i], 2, 6) = want[i] /\ run.steps[i][1] = 0
 
